@@ -105,6 +105,32 @@ def run_case(case):
     if 'a' in case['hdr']:
         check('convert(a)', lambda: etl.convert(t, 'a', lambda v: v + 1000), case['convert'])
         check('update-like convert(a, dict arg)', lambda: etl.convert(t, {'a': lambda v: v + 1000}), case['convert'])
+    # the value callable of addfield sees the SQUARED-UP row (padded with missing / trimmed), whatever it asks of it
+    for c in case['addfield']:
+        if c['index'] != 99:
+            continue
+        want = want_of(c['out'])
+        if want[0] == 'ok':
+            wl = ('ok', want[1], [tuple(r[:-1]) + (len(case['hdr']),) for r in want[2]])
+            got = materialise(lambda: etl.addfield(t, 'z', lambda rec: len(rec)))
+            if got != wl:
+                problems.append('addfield(lambda rec: len(rec)) delivered %r, spec %r' % (got, wl))
+            wt = ('ok', want[1], [tuple(r[:-1]) + (tuple(r[:-1]),) for r in want[2]])
+            got = materialise(lambda: etl.addfield(t, 'z', lambda rec: tuple(rec)))
+            if got != wt:
+                problems.append('addfield(lambda rec: tuple(rec)) delivered %r, spec %r' % (got, wt))
+    # a conversion added through view[field] = f AFTER a pass is applied by the next pass
+    if 'a' in case['hdr'] and want_of(case['convert'])[0] == 'ok':
+        try:
+            v = etl.convert(t)
+            first = [tuple(r) for r in v]
+            v['a'] = lambda x: x + 1000
+            second = ('ok', None, None)
+            got = materialise(lambda: v)
+            if got != want_of(case['convert']):
+                problems.append('convert view: conversion set after a first pass: second pass delivered %r, spec %r' % (got, want_of(case['convert'])))
+        except Exception as e:
+            problems.append('convert view with late __setitem__ raised %r' % (e,))
     for c in case['addfield9']:
         def counter9():
             k = itertools.count(1)
@@ -153,10 +179,26 @@ def run_case(case):
     return problems
 
 
+def _fresh(c):
+    """cell value for the non-default-missing variant: abstract 0 (missing) -> a FRESH, non-interned int object equal to
+    -9999 (equal to the `missing` argument but not identical to it), other cells unchanged."""
+    return int('-9999') if c == 0 else c
+
+
 def run_fill_case(case, down=False):
     import petl as etl
     t = [list(case['hdr'])] + crows(case['rows'])
+    tm = [list(case['hdr'])] + [[_fresh(c) for c in r] for r in case['rows']]
     problems = []
+
+    def checkm(label, fn, out):
+        # same definition with `missing` = -9999 instead of None
+        got = materialise(fn)
+        want = want_of(out)
+        if want[0] == 'ok':
+            want = ('ok', want[1], [tuple(-9999 if c is None else c for c in r) for r in want[2]])
+        if got != want:
+            problems.append('%s delivered %r, spec %r' % (label, got, want))
 
     def check(label, fn, out):
         got, want = materialise(fn), want_of(out)
@@ -165,9 +207,12 @@ def run_fill_case(case, down=False):
     if down:
         check('filldown(a, b)', lambda: etl.filldown(t), case['filldown'])
         check('filldown(a)', lambda: etl.filldown(t, 'a'), case['filldown_a'])
+        checkm('filldown(missing=-9999)', lambda: etl.filldown(tm, missing=int('-9999')), case['filldown'])
     else:
         check('fillright', lambda: etl.fillright(t), case['fillright'])
         check('fillleft', lambda: etl.fillleft(t), case['fillleft'])
+        checkm('fillright(missing=-9999)', lambda: etl.fillright(tm, missing=int('-9999')), case['fillright'])
+        checkm('fillleft(missing=-9999)', lambda: etl.fillleft(tm, missing=int('-9999')), case['fillleft'])
     return problems
 
 
